@@ -5,15 +5,17 @@
     equal the names in the input."  Quantifier: valid modules over MVP, multi-value, reference types, bulk memory, SIMD,
     tail calls, GC types, exceptions, threads, memory64, multi-memory (with the flag); no extended-const.
 
-   The property is FALSE of /repo today, in exactly these input classes (all found / confirmed by this engine):
+   The property is FALSE of /repo today, in exactly these input classes:
      D10a (101)  a value type exnref / nullexnref in the type section or in a local declaration comes back non-nullable
                  ((ref exn) / (ref noexn)): src/ir/types.rs DataType has no nullable Exn / NoExn variant;
-     D09a-d, D09i-j (901-904, 909, 910)  the parse panics on a valid module (name section before the code section,
-                 producers section with zero fields, ...): there is no output at all.
-   (D10b contref / D10c shared heap types are the same defect outside the quantified profiles: table-level witnesses
-   only.  D23 "names silently lost when the name section precedes later content" was NOT reproduced: on valid
-   modules an early name section either names a function whose body has not been seen -- then the parse panics,
-   D09a -- or every name is preserved.)
+     D09i / D09j (909, 910)  a valid module whose name section has an undecodable entry (name not UTF-8, map shorter
+                 than its count) is rejected with Err -- there is no output.  (Until the repair these inputs made the
+                 parse panic; rejecting them is still a failure of "parsing succeeds on every valid module".)
+   (Repaired: D09a-d -- a name section before the code section, function names past the last function and producers
+   sections with zero / unknown / non-UTF-8 fields are now parsed and round-trip.  D10b contref / D10c shared heap
+   types are the same defect as D10a outside the quantified profiles: table-level witnesses only.  D23 "names
+   silently lost when the name section precedes later content" never existed on valid modules; with the repair of
+   D09a an early name section keeps every name.)
 
    What is established:
    * C02_valtype_faithful / C02_valtype_class_exact (Coq proof over the conversion tables *generated* from
@@ -96,4 +98,10 @@ Example C02_case_D10 :
   let c := mkRCase false ex_mod OOk OOk true false ex_items [[11; 99]; []; [21; 98]; []; []; []; [31]; []; []; []; []] [] [] [] []
                    [(VRef true (HAbs false AExn), Some (VRef false (HAbs false AExn)))] in
   agree02 c = true /\ holds02 c = false /\ known_rt c = [101].
+Proof. vm_compute. repeat split; reflexivity. Qed.
+(* D09i as observed after the repair of the panic: a valid module with an undecodable type-name entry is rejected *)
+Example C02_case_D09i :
+  let c := mkRCase false [MVersion 1; MTypes [true] true; MName [NSOther; NSMap false]; MIgnored] OErr OErr true false
+                   [[11]; []; []; []; []; []; []; []; []; []; []] [[]; []; []; []; []; []; []; []; []; []; []] [] [] [] [] [] in
+  agree02 c = true /\ holds02 c = false /\ pred_parse c = OErr /\ known_rt c = [909].
 Proof. vm_compute. repeat split; reflexivity. Qed.
